@@ -43,6 +43,11 @@ def build(term, W, cache=None):
         return dict[build(term[1], W, cache), build(term[2], W, cache)]
     if k == "raw":
         return RAW[term[1]]
+    if k == "CCF":
+        # a class_check type made by a FACTORY (all such types share one code object and differ in their closure): subclasses of the class
+        from ovld import class_check
+
+        return class_check(_ccf_condition(build(term[1], W, cache)))
     if k == "any":
         import typing
 
@@ -86,6 +91,12 @@ def _p2(x):
 PREDS = [_p0, _p1, _p2]
 
 
+def _ccf_condition(base):
+    def below(cls):
+        return isinstance(cls, type) and issubclass(cls, base)
+    return below
+
+
 def term_str(term):
     k = term[0]
     if k == "K":
@@ -112,6 +123,8 @@ def term_str(term):
         return term[1]
     if k == "any":
         return "Any"
+    if k == "CCF":
+        return f"class_check(below({term_str(term[1])}))"
     if k == "Lit":
         return "Literal[" + ", ".join(map(repr, term[1:])) + "]"
     if k == "tuple":
@@ -151,6 +164,8 @@ def member(term, i, W, hm=None):
         raise ValueError(term)
     if k == "HM":
         return hm(i, term[1])
+    if k == "CCF":
+        return member(term[1], i, W, hm)
     if k in ("type", "list", "dict"):
         return z3.BoolVal(False)  # an instance of a harness class is never a type / list / dict
     if k == "Dep":
